@@ -259,7 +259,10 @@ class Kernel:
             if forced:
                 err = forced
             else:
-                self.sad.clear()
+                # xfrm_usersa_flush.proto: 0 (IPSEC_PROTO_ANY) flushes every state, any other value only the states of that protocol
+                proto = req.get('proto', 0)
+                for key in [x for x in self.sad if proto in (0, x[1])]:
+                    del self.sad[key]
         elif k == 'FLUSHPOLICY':
             if forced:
                 err = forced
